@@ -176,9 +176,41 @@ type tF struct {
 	Name       string `nbt:"name,omitempty"`
 }
 
+// Two distinct types with the same name (declared in different function
+// scopes) and two anonymous struct types: a cache keyed by anything coarser
+// than the reflect.Type itself confuses them.
+func localT1(seed int) any {
+	type T struct {
+		P int32 `nbt:"p"`
+		Q int32 `nbt:"q"`
+	}
+	return T{P: int32(seed), Q: -int32(seed)}
+}
+
+func localT2(seed int) any {
+	type T struct {
+		Q string `nbt:"q"`
+		R int64  `nbt:"r"`
+	}
+	return T{Q: fmt.Sprint("q", seed), R: int64(seed) << 33}
+}
+
 func mkVal(k, seed int) any {
 	a := tA{X: int32(seed*7 + 1), S: fmt.Sprintf("s-%d-%d", k, seed)}
-	switch k % 6 {
+	switch k % 10 {
+	case 6:
+		return localT1(seed)
+	case 7:
+		return localT2(seed)
+	case 8:
+		return struct {
+			U int16 `nbt:"u"`
+		}{int16(seed)}
+	case 9:
+		return struct {
+			V string `nbt:"v"`
+			W []int32
+		}{fmt.Sprint(seed), []int32{int32(seed), 2}}
 	case 0:
 		return a
 	case 1:
@@ -223,7 +255,7 @@ func scenarioN(c *harness.Ctx) {
 	kinds := make([]int, n)
 	same := false
 	for i := range kinds {
-		kinds[i] = tp.Choose(6)
+		kinds[i] = tp.Choose(10)
 		for j := 0; j < i; j++ {
 			if kinds[j] == kinds[i] {
 				same = true
